@@ -260,7 +260,7 @@ func (j *Join) ParallelJoinFunc(l, r *HashedTable) ([]any, error) {
 
 func (j *Join) JoinMatchFunc(lk string, lv *map[string]any, l, r *HashedTable) (bool, []any, error) {
 	slice := make([]any, 0)
-	b := false
+	matched := false
 	for rk, rv := range r.Keys {
 		_current := make(Map)
 		maps.Copy(_current, *lv)
@@ -273,44 +273,62 @@ func (j *Join) JoinMatchFunc(lk string, lv *map[string]any, l, r *HashedTable) (
 		if !ok {
 			return false, nil, INVALID_TYPE.Extend(fmt.Sprintf("failed to build `JOIN` expression, expected boolean but found %T", rsValue))
 		}
-		if rsValue || !j.joinType.IsInner() {
-			b = true
-			if len(j.into) != 0 {
-				current := make(Map)
-				if err := Copy(current, l.Rows[lk], j.leftIdent); err != nil {
-					return false, nil, err
-				}
-				if err := Copy(current, r.Rows[rk], j.rightIdent); err != nil {
-					return false, nil, err
-				}
-
-				maps.Copy(current, *(l.Keys[lk]))
-				if _, ok := r.Keys[rk]; ok {
-					maps.Copy(current, *(r.Keys[rk]))
-				}
-				out := make(Map)
-				out[j.into] = current
-				slice = append(slice, out)
-				continue
+		if !rsValue {
+			continue
+		}
+		matched = true
+		if len(j.into) != 0 {
+			current := make(Map)
+			if err := Copy(current, l.Rows[lk], j.leftIdent); err != nil {
+				return false, nil, err
 			}
-			for _, lr := range l.Rows[lk] {
-				if len(r.Rows) > 0 {
-					for _, rr := range r.Rows[rk] {
-						mapper := make(Map)
-						maps.Copy(mapper, (*lr).(Map))
-						maps.Copy(mapper, (*rr).(Map))
-						slice = append(slice, mapper)
-					}
-					continue
-				}
+			if err := Copy(current, r.Rows[rk], j.rightIdent); err != nil {
+				return false, nil, err
+			}
+
+			maps.Copy(current, *(l.Keys[lk]))
+			if _, ok := r.Keys[rk]; ok {
+				maps.Copy(current, *(r.Keys[rk]))
+			}
+			out := make(Map)
+			out[j.into] = current
+			slice = append(slice, out)
+			continue
+		}
+		for _, lr := range l.Rows[lk] {
+			for _, rr := range r.Rows[rk] {
 				mapper := make(Map)
 				maps.Copy(mapper, (*lr).(Map))
-				mapper[j.rightIdent] = nil
+				maps.Copy(mapper, (*rr).(Map))
 				slice = append(slice, mapper)
 			}
 		}
 	}
-	return b, slice, nil
+	// outer joins: rows of the preserved side that found no partner are
+	// emitted once, with the other side NULL
+	if !matched && !j.joinType.IsInner() {
+		if len(j.into) != 0 {
+			current := make(Map)
+			if err := Copy(current, l.Rows[lk], j.leftIdent); err != nil {
+				return false, nil, err
+			}
+			if err := Copy(current, nil, j.rightIdent); err != nil {
+				return false, nil, err
+			}
+			maps.Copy(current, *(l.Keys[lk]))
+			out := make(Map)
+			out[j.into] = current
+			slice = append(slice, out)
+			return true, slice, nil
+		}
+		for _, lr := range l.Rows[lk] {
+			mapper := make(Map)
+			maps.Copy(mapper, (*lr).(Map))
+			mapper[j.rightIdent] = nil
+			slice = append(slice, mapper)
+		}
+	}
+	return len(slice) > 0, slice, nil
 }
 
 func (j *Join) ParallelHashJoinFunc(l, r *HashedTable) ([]any, error) {
